@@ -9,7 +9,7 @@ import json
 import os
 import re
 
-from . import common, bvals, bval_spec, trees
+from . import common, bvals, bval_spec, trees, javaexpr
 from .common import AnalysisBroken, enum_name, string_value, const_value
 from .c04_builtins import canon, load_frozen
 from .trees import show, has_opaque
@@ -23,6 +23,9 @@ EXPLANATION = (
     "the BigInteger method that implements the bigint primitive. J3: every foamj.* method or constant named by a row is "
     "declared static in lib/java/src/foamj/<Class>.java with as many parameters as the builtin has operands. J4: every FOAM "
     "tag with a case in confirmed as handled by the Java generator's dispatch (gj0Gen0, gj0SeqGen) still has its case. "
+    "J5: a foamj.* method named by a row whose body is a single `return e;` is parsed (mini Java expression parser) and, "
+    "with java.math.BigInteger methods mapped to the bigint primitives they implement (add -> bintPlus, compareTo(..) < 0 -> "
+    "bintLT, ...), compared with the reference tree of the builtin. "
     "Not decided: behaviour of generated classes; builtins beyond the table's end are 'not implemented in Java'.")
 
 JAVA_CAST_CLASS = {"int": "i64", "char": "char", "byte": "u8", "short": "i16", "float": "f32", "double": "f64", "long": "i64"}
@@ -75,6 +78,14 @@ def java_decls(path):
         if "static" in mods and "final" in mods:
             fields[m.group(3)] = m.group(4).strip()
     return methods, fields
+
+
+def _has_java_residue(t):
+    if not isinstance(t, tuple):
+        return False
+    if t[0] in ("mcall", "scall", "sfield", "class", "cmp", "mem"):
+        return True
+    return any(_has_java_residue(x) for x in t[1:] if isinstance(x, tuple))
 
 
 def run(tier, only=None):
@@ -168,6 +179,8 @@ def run(tier, only=None):
     interp, _, _ = bvals.interp_cases(f_fint, inline)
 
     compared = 0
+    bodies = {}
+    n5 = [0]
     for r in rows:
         tag = r["tag"]
         inf = by.get(tag)
@@ -290,7 +303,39 @@ def run(tier, only=None):
             rep.note("%s: Java form %s has no reference to compare with" % (short, show(jt)))
             continue
         if any(c.startswith(("foamj.", "java.", "BigInteger.", "Character.")) for c in trees.callees_in(jt)):
-            rep.note("%s: implemented by runtime method %s (declaration checked by J3, body not analysed)" % (short, show(jt)))
+            # J5: a foamj.* method whose body is a single `return e;` is compared with the reference as well
+            done = False
+            if m == "GJ_Apply" and r["c1"].startswith("foamj."):
+                cls = r["c1"].split(".", 1)[1]
+                if cls not in bodies:
+                    bodies[cls] = javaexpr.single_return_methods(os.path.join(common.JAVA_RT, cls + ".java"))
+                cands = [b for b in bodies[cls].get(r["c2"], []) if len(b[0]) == argc]
+                # overloads (isEven(int) / isEven(BigInteger)): choose by the builtin's operand type
+                jtype = {"FOAM_BInt": "BigInteger", "FOAM_SInt": "int"}.get(inf["argTypes"][0] if inf["argTypes"] else None)
+                if len(cands) > 1 and jtype:
+                    src = open(os.path.join(common.JAVA_RT, cls + ".java")).read()
+                    cands = [b for b in cands if re.search(r"\b%s\s*\(\s*%s\s+%s\b" % (re.escape(r["c2"]), jtype, re.escape(b[0][0])), src)]
+                if len(cands) == 1:
+                    params, text = cands[0]
+                    try:
+                        jbody = javaexpr.to_reference(javaexpr.parse(text, params))
+                    except ValueError as e:
+                        raise AnalysisBroken("cannot parse the body of %s.%s: %s" % (r["c1"], r["c2"], e))
+                    if not any(c.startswith("BigInteger.") for c in trees.callees_in(jbody)) and not _has_java_residue(jbody):
+                        jn = canon(jbody, inf, used)
+                        rn = canon(ref, inf, used)
+                        n5[0] += 1
+                        key5 = "body:%s" % short
+                        where5 = "lib/java/src/foamj/%s.java (%s)" % (cls, r["c2"])
+                        if jn == rn:
+                            rep.ok("J5", key5, sample={"builtin": short, "java": text, "tree": show(jn)} if n5[0] <= 4 else None)
+                        else:
+                            rep.violation("J5", key5, where5,
+                                          "%s: the Java runtime method %s.%s returns %s, the reference is %s" % (
+                                              short, r["c1"], r["c2"], show(jn), show(rn)))
+                        done = True
+            if not done:
+                rep.note("%s: implemented by runtime method %s (declaration checked by J3, body not analysed)" % (short, show(jt)))
             continue
         jn = canon(jt, inf, used)
         rn = canon(ref, inf, used)
@@ -308,6 +353,7 @@ def run(tier, only=None):
             rep.violation("J2", key, where, "%s: generated Java computes %s but %s is %s" % (short, show(jn), pivot, show(rn)),
                           detail={"java": show(jn), "reference": show(rn)})
     rep.floor("Java rows compared with a reference", compared, 110)
+    rep.floor("Java runtime method bodies compared with the reference", n5[0], 12)
 
     # --- J4 FOAM tag coverage --------------------------------------------------
     def handled(facts, names):
